@@ -1,12 +1,12 @@
 CONSTANTS
-  MaxSteps = 2
-  MaxLen = 4
-  Hist = FALSE
+  MaxSteps = 5
+  MaxLen = 5
+  Hist = TRUE
   ClearBeforeCopy = FALSE
   CopyThroughSet = FALSE
   AliasedFirstAssignment = FALSE
-  Churn = FALSE
+  Churn = TRUE
   StaleReportedCache = FALSE
-  UnhookedExtend = TRUE
+  UnhookedExtend = FALSE
 SPECIFICATION Spec
-INVARIANT InfersAlike
+INVARIANT Emit
